@@ -96,7 +96,7 @@ def laws():
         env = Env(g)
         for s_, n in zip(sy, ("u", "b", "c", "d")):
             env.names[s_] = n
-        k = [g.sym(f"k{i}") for i in range(6)]
+        k = [g.var(f"k{i}") for i in range(6)]  # coefficients stay symbolic in the replay too: the term structure matters
         return sy, env, k
 
     SV = [(c, form, red) for c in _combos(full) for form in ("expr", "eq") for red in (True, False)]
